@@ -89,6 +89,9 @@ MAIN_INV = {
     "J5-last-start": "forall(range(i, len(results)), lambda j: implies(nchildren(node) > 0, ABSK[len(stack)] + last(node).start <= a_of(j)))",
     "J4x": "forall((range(1, len(stack) + 1), range(i, len(results))), lambda k, j: ABSK[k] < a_of(j) or (ABSK[k] == a_of(j) and ext(k) >= b_of(j)))",
     "J4-sorted": "forall((range(len(results)), range(len(results))), lambda j1, j2: implies(j1 < j2, a_of(j1) < a_of(j2) or (a_of(j1) == a_of(j2) and b_of(j1) >= b_of(j2))))",
+    # ---- C06: hits with the same span are processed in registry order (the sort is stable and its key is exactly (start, -end))
+    "E4-registry-order-ties": "forall((range(len(results)), range(len(results))), lambda j1, j2: implies(j1 < j2 and a_of(j1) == a_of(j2) and b_of(j1) == b_of(j2), "
+    "origin(results, j1) < origin(results, j2)))",
     # ---- J5: decode_end is the ABSOLUTE end of the last decoded hit, and the current context's last child ends at or before it
     "J5-decode-end": "decode_end == DABS",
     "J5-last-end": "implies(nchildren(node) > 0, ABSK[len(stack)] + last(node).end <= DABS)",
